@@ -634,9 +634,26 @@ pub fn run(cfg: &Cfg, rep: &mut Report) {
     if cfg.shard == 0 {
         check_inferred_cells(rep);
     }
-    for (i, h) in FIXED_HISTORIES.iter().enumerate() {
+    // histories around imported files that declare mutable state (every import builds the file's state anew)
+    let idir = format!("/verif/target/scratch/c17-{}-{}", std::process::id(), cfg.shard);
+    let _ = std::fs::create_dir_all(&idir);
+    let state = format!("{idir}/state.ssl");
+    let plain = format!("{idir}/plain.ssl");
+    let _ = std::fs::write(&state, "c := mut 0; bump := () -> int { c += 1; return *c }; log := mut [int] [];");
+    let _ = std::fs::write(&plain, "k := 5; twice := (x: int) -> int { return x * 2 };");
+    let import_histories: Vec<Vec<String>> = vec![
+        vec![format!("m := import \"{state}\";"), "a := m.bump();".into(), "b := m.bump();".into(), "(a, b, *m.c)".into()],
+        vec![format!("f := () -> int {{ m := import \"{state}\"; return m.bump() }};"), "a := f();".into(), "b := f();".into(), "(a, b)".into()],
+        vec!["s := mut 0;".into(), format!("for k in [1, 2, 3]~ {{ m := import \"{state}\"; s += m.bump(); }};"), "*s".into()],
+        vec![format!("m := import \"{state}\";"), format!("n := import \"{state}\";"), "m.bump();".into(), "m.log += [7];".into(), "(*m.c, *n.c, *m.log, *n.log)".into()],
+        vec![format!("m := import \"{plain}\";"), "k := 1;".into(), "a := m.twice(m.k + k);".into(), "(a, k, m.k)".into()],
+        vec![format!("mk := () -> () -> int {{ m := import \"{state}\"; return m.bump }};"), "f := mk();".into(), "g := mk();".into(), "(f(), f(), g())".into()],
+        vec![format!("m := mod {{ inner := import \"{state}\"; x := inner.bump() }};"), "y := m.inner.bump();".into(), "(m.x, y)".into()],
+    ];
+    let fixed: Vec<Vec<String>> = FIXED_HISTORIES.iter().map(|h| h.iter().map(|t| t.to_string()).collect()).chain(import_histories).collect();
+    for (i, h) in fixed.iter().enumerate() {
         if cfg.owns(1000 + i as u64) {
-            let texts: Vec<String> = h.iter().map(|t| t.to_string()).collect();
+            let texts: Vec<String> = h.clone();
             rep.count("fixed-histories");
             check_repl_texts(&texts, &[], rep);
             // the same history as one program: executing the parsed program again gives the same result
@@ -649,9 +666,25 @@ pub fn run(cfg: &Cfg, rep: &mut Report) {
                 if runs.iter().any(|r| *r != runs[0]) {
                     rep.violation("c17:exec:second-run-differs", &format!("three executions of one parsed program gave {runs:?} :: {whole}"), "c17-text", &texts.join("\n"));
                 }
+                // ... and unscoped, each time in a fresh interpreter
+                let runs2: Vec<String> = (0..2)
+                    .map(|_| {
+                        let mut fresh = Interpreter::with_stdlib();
+                        match real::guarded(|| code.exec_unscoped(&mut fresh)) {
+                            Ok(Ok(v)) => canon(&v),
+                            Ok(Err(e)) => format!("error:{e:?}"),
+                            Err(p) => format!("panic:{}", p.site()),
+                        }
+                    })
+                    .collect();
+                rep.evaluations += 2;
+                if runs2[0] != runs2[1] || runs2[0] != runs[0] {
+                    rep.violation("c17:exec:second-run-differs", &format!("executions of one parsed program (scoped, then unscoped in fresh interpreters) gave {runs:?} / {runs2:?} :: {whole}"), "c17-text", &texts.join("\n"));
+                }
             }
         }
     }
+    let _ = std::fs::remove_dir_all(&idir);
     let n = cfg.per_shard(20_000, 800_000);
     for i in 0..n {
         if i % 8 == 0 {
